@@ -22,7 +22,9 @@ DEFAULT_FEED_KNOBS = dict(
     n_foreign=(0, 0),
     p_never_final=0.05,  # unit whose expected-vote stays below 100
     p_provider_err=0.2,
-    p_zero_version=0.03,  # an early version that carries an expected-vote percentage but no tabulated votes yet
+    p_zero_version=0.03,
+    late_state_p=0.15,
+    foreign_new_state_p=0.1,  # a foreign unit may belong to a state that is not part of the election at all  # polls close later in one state: all its units report in the last fifth of the night  # an early version that carries an expected-vote percentage but no tabulated votes yet
     surge_frac=0.0,
     boundary_frac=0.0,
     poll_every=(30.0, 120.0),
@@ -127,11 +129,16 @@ def feed_row(baseline_row, v):
     )
 
 
-def foreign_unit(rng, world, serial):
+def foreign_unit(rng, world, serial, new_state_p=0.0):
     """A unit that is not in the baseline: known or unknown county / district."""
     postal = choice(rng, world["states"])
     sfips = world["state_fips"][postal]
+    if new_state_p and chance(rng, new_state_p):
+        # a unit of a state that is not part of this election at all
+        postal, sfips = "ZZ", "99"
     counties = sorted({r["county_fips"] for r in world["baseline"] if r["postal_code"] == postal})
+    if postal == "ZZ":
+        counties = []
     known_county = chance(rng, 0.6) and len(counties) > 0
     county = choice(rng, counties) if known_county else f"{sfips}{900 + serial % 90:03d}"
     ut = world["unit_type"]
@@ -192,14 +199,21 @@ def schedule_night(streams, world, feed_knobs=None, threshold=100, tf_limits=(0.
     stats = dict(released=0, delivered=0, lost=0, dup=0, overtaken=0, rescaled=0, foreign=0, kinds={})
     base_by = {r["geographic_unit_fips"]: r for r in world["baseline"]}
     # unit processes
+    late_state = None
+    if len(world["states"]) > 1 and chance(streams.sched, k.get("late_state_p", 0.0)):
+        late_state = choice(streams.sched, world["states"])
+        stats["late_state"] = late_state
     for fips in sorted(base_by):
         vs, kind = unit_versions(rel, world["truth"][fips], base_by[fips], k, threshold, tf_limits)
+        if base_by[fips]["postal_code"] == late_state:
+            for v in vs:
+                v["t"] = k["horizon"] * 0.82 + v["t"] * 0.18
         stats["kinds"][kind] = stats["kinds"].get(kind, 0) + 1
         for i, v in enumerate(vs):
             push(v["t"], ("release", fips, i, v))
     n_foreign = int(feed.integers(k["n_foreign"][0], k["n_foreign"][1] + 1))
     for s in range(n_foreign):
-        row, info = foreign_unit(feed, world, s + 1)
+        row, info = foreign_unit(feed, world, s + 1, new_state_p=k.get("foreign_new_state_p", 0.0))
         push(float(feed.uniform(1, k["horizon"])), ("foreign", row, info))
     # poll timer
     t = k["start_polls_after"] + float(streams.sched.uniform(*k["poll_every"]))
